@@ -62,3 +62,11 @@ add("C17", "exploration",
     "Generated programs never name registers explicitly; both byte and character size admitted for non-ASCII comments.",
     "property-based testing (Hypothesis): independent recomputation oracle",
     "DESIGN.md section 17")
+add("C16", "exploration",
+    "Complete enumeration of the finite generated tables: all structure classes and plural forms (independent CRC-32, "
+    "bijection, both forms compiled), all slot properties (compiled, index compared), all intrinsic wrappers (compiled "
+    "with marker arguments, compared with an independent instruction table), all enum members (ast-parsed numbers "
+    "unique; verbose name and compact number compiled and compared). exhaustive=true.",
+    "Internal consistency only (no game data offline); instruction output registers per pv/isa.py.",
+    "exhaustive enumeration of finite tables with independent recomputation (CRC-32, ast parse) through compile_code",
+    "DESIGN.md section 16")
